@@ -214,7 +214,7 @@ Proof.
 Qed.
 
 (* ... hence neither does the zone model: in particular `del self.nodes[name]` in delete_rdataset never
-   fails (the KeyError of the defect fixed by ea85fed cannot come back without breaking this theorem),
+   fails (the KeyError of the defect fixed by 2d6b3bb cannot come back without breaking this theorem),
    and the assertion in _add never fires *)
 Theorem impl_never_internal c h z l :
   wfc c -> Forall spec_valid h -> Forall spec_named h -> RP c z l ->
